@@ -570,6 +570,19 @@ def _enc_class_results(f, w):
                 return not (isnan or isinf)
             if c.get('k') == 'call' and c.get('name') == 'signbit' and _is_sym(c['args'][0], pname):
                 return sign
+            if c.get('k') == 'binop' and c.get('op') in ('==', '!='):
+                # floating-point equality with a numeric_limits constant: IEEE says every comparison with a NaN is false
+                for a_, z_ in ((c['l'], c['r']), (c['r'], c['l'])):
+                    z2 = symwalk.strip_expect(z_)
+                    if _is_sym(a_, pname) and isinstance(z2, dict) and z2.get('k') == 'call' and 'numeric_limits' in (z2.get('callee') or ''):
+                        nm_ = z2.get('name')
+                        if nm_ in ('quiet_NaN', 'signaling_NaN'):
+                            eq = False
+                        elif nm_ == 'infinity':
+                            eq = (not isnan) and isinf and pos
+                        else:
+                            return None
+                        return eq if c['op'] == '==' else (not eq)
             if c.get('k') == 'binop' and c.get('op') in ('>', '<') and _is_sym(c['l'], pname):
                 r = symwalk.strip_expect(c['r'])
                 if isinstance(r, dict) and r.get('k') == 'int' and int(r['v']) == 0:
@@ -797,6 +810,46 @@ def enc4(cfg):
                 f.walk(e['args'][1], v)
                 if hit:
                     clamps.append((b, i))
+        # (a') the clamp is taken exactly when the FULL-WIDTH length exceeds maxlen: `text.size[_bytes]() > maxlen`, the length
+        #      not narrowed (a 16-bit copy of the length wraps for inputs of 64 KiB and more: the clamp is then skipped)
+        from .qsbr import control_conditions as _cc
+        _inits = {}
+        for b_, i_, e_ in f.elements():
+            if e_.get('k') == 'decl':
+                for v_ in e_['vars']:
+                    if 'init' in v_:
+                        _inits[v_['did']] = (v_['init'], v_.get('w'), v_.get('t'))
+
+        def full_width_len(o, depth=0):
+            """True: the text's length at >= 64 bit; False: narrowed / something else"""
+            x = f.resolve(o)
+            if not isinstance(x, dict) or depth > 6:
+                return False
+            if x.get('k') == 'cast':
+                if x.get('w') is not None and x.get('w') < 64:
+                    return False
+                return full_width_len(x['sub'], depth + 1)
+            if x.get('k') == 'initlist' and len(x.get('args', [])) == 1:
+                return full_width_len(x['args'][0], depth + 1)
+            if x.get('k') == 'ref' and x.get('vk') == 'local' and x.get('did') in _inits:
+                init, w, t = _inits[x['did']]
+                if w is not None and w < 64:
+                    return False
+                return full_width_len(init, depth + 1)
+            return x.get('k') == 'call' and x.get('name') in ('size', 'size_bytes') and x.get('obj') is not None and f.ref_of(x['obj']) and f.ref_of(x['obj'])[0] == pdid
+        _subspans = [(b_, i_) for b_, i_, e_ in f.elements() if e_.get('k') == 'call' and e_.get('name') == 'subspan' and len(e_.get('args', [])) == 2 and isinstance(f.strip_casts(e_['args'][1]), dict) and f.strip_casts(e_['args'][1]).get('name') == 'maxlen' and e_.get('obj') is not None and f.ref_of(e_['obj']) and f.ref_of(e_['obj'])[0] == pdid]
+        for (cb_, ci_) in _subspans:
+            okw = False
+            for c_, val_, _b in _cc(f, cb_):
+                if isinstance(c_, dict) and c_.get('k') == 'binop' and c_.get('op') in ('>', '<', '>=', '<='):
+                    l_, r_ = f.strip_casts(c_['l']), f.strip_casts(c_['r'])
+                    for (lenside, other, op_) in ((c_['l'], r_, c_['op']), (c_['r'], l_, {'>': '<', '<': '>', '>=': '<=', '<=': '>='}[c_['op']])):
+                        if isinstance(other, dict) and other.get('k') == 'ref' and other.get('name') == 'maxlen' and full_width_len(lenside):
+                            # taken iff len > maxlen
+                            okw = (op_ == '>' and bool(val_)) or (op_ == '<=' and not val_)
+            res.ob(okw, {'rule': 'ENC-4', 'fact': 'the truncation to maxlen is taken exactly when the full-width length exceeds maxlen', 'verdict': 'discharged' if okw else 'VIOLATION'})
+            if not okw:
+                res.find(f, f.el(cb_, ci_).get('loc') or f.loc, 'encode_text: the truncation to maxlen is not guarded by `length > maxlen` on the untruncated, full-width length (e.g. the length is first narrowed to 16 bits): for inputs of 64 KiB and more the length wraps, the text is emitted untruncated and the pad run length wraps - texts that are equal after truncation encode differently and tuples order by bytes beyond maxlen', key='ENC-4:clamp-condition', config=cfg.name)
         reads = [(b, i, e) for b, i, e in f.elements() if e.get('k') == 'call' and e.get('ck') == 'op' and e.get('op') == '[]' and e.get('args') and f.ref_of(e['args'][0]) and f.ref_of(e['args'][0])[0] == pdid]
         ok = bool(reads) and bool(clamps) and all(any(elem_dominates(f, dom, c, (b, i)) for c in clamps) for b, i, _ in reads)
         res.ob(ok, {'rule': 'ENC-4', 'fact': 'text = text.subspan(0, maxlen) (when longer) dominates every read text[i]', 'reads': len(reads), 'verdict': 'discharged' if ok else 'VIOLATION'})
@@ -816,6 +869,21 @@ def enc4(cfg):
         if not ok:
             res.find(f, f.loc, 'encode_text framing: ' + why, key='ENC-4:emission', config=cfg.name)
     # append_bytes: ensure_available(n) dominates memcpy(buf + off, data, n); off += n
+    # the std::string_view overload hands exactly its own bytes to the span overload
+    from .point import xsig as _xsig
+    for f in [g for g in cfg.functions if g.cls == ENCODER and g.short == 'encode_text' and g.blocks and g.params and 'string_view' in g.params[0]['t']]:
+        res.count('text forwarding overloads')
+        res.functions.add(f.sig)
+        spans = [e for b, i, e in f.elements() if e.get('k') == 'call' and e.get('ck') == 'ctor' and 'std::span<' in (e.get('cls') or '') and len(e.get('args', [])) == 2]
+        fw = [e for b, i, e in f.elements() if e.get('k') == 'call' and e.get('name') == 'encode_text']
+        if len(spans) != 1 or len(fw) != 1:
+            res.incompl('ENC-4: encode_text(string_view) is not a single forwarding call over one span')
+            continue
+        a0, a1 = _xsig(f, spans[0]['args'][0]), _xsig(f, spans[0]['args'][1])
+        ok = a0 == 'p0.data()' and a1 in ('p0.size()', 'p0.length()')
+        res.ob(ok, {'rule': 'ENC-4', 'fact': 'encode_text(string_view) forwards span(sv.data(), sv.size())', 'got': [a0, a1], 'verdict': 'discharged' if ok else 'VIOLATION'})
+        if not ok:
+            res.find(f, spans[0].get('loc'), 'encode_text(std::string_view) hands (%s, %s) to the byte-span overload instead of exactly (sv.data(), sv.size()): bytes outside the view become part of the encoded text (a view "bro" into "brownfox" encodes like "brow"), the two overloads disagree and distinct texts collide' % (a0, a1), key='ENC-4:string_view-forward', config=cfg.name)
     for f in [g for g in cfg.functions if g.cls == ENCODER and g.short == 'append_bytes' and g.blocks]:
         res.count('text encoders')
         ok = _append_ok(f)
